@@ -262,6 +262,11 @@ package keepclient
 //@   calls Header.Get#1: set hdr = $r
 //@   at send#4: assert hdr == "" ==> $v.replicasStored == 1
 //@   at send#5: assert $v.err != nil && $v.statusCode == resp.StatusCode && resp.StatusCode != 200
+//@   # every status names the request URL <service root>/<hash> (putReplicas
+//@   # derives the service to retry from it by cutting off the last path element)
+//@   at send#*: assert $v.url == url
+//@   at assign url#1: assert url == host + "/" + hash
+//@   calls http.NewRequest#1: requires $0 == "PUT" && $1 == url
 
 // PutB computes the locator hash from the very bytes it sends.
 //@ func KeepClient.PutB property C11
